@@ -17,9 +17,9 @@ SetLits == {Set({IntV(1), IntV(2)}), Set({IntV(2), IntV(3)}), Set({IntV(7)}), Se
 Lits == IntLits \cup StrLits \cup ListLits \cup SetLits \cup {Bool(TRUE), Bool(FALSE)}
 
 AllOps == {"add", "sub", "mul", "div", "mod", "lt", "le", "gt", "ge", "eq", "ne", "cat", "and", "neg", "ite",
-        "lcat", "union", "count", "in", "notin", "where", "tform", "tconst", "tset", "lit", "mkmap", "attr", "mapt", "call"}
+        "lcat", "union", "count", "in", "notin", "where", "tform", "tconst", "tset", "lit", "mkmap", "attr", "mapt", "call", "rodd", "rsum", "rall", "rlist"}
 Ops == IF Focus = "concat" THEN {"lit", "lcat", "union"} ELSE IF Focus = "collections" THEN {"lit", "lcat", "union", "count", "where", "tform", "tconst", "tset", "mkmap", "attr", "mapt"} ELSE AllOps
-Arity(op) == IF op \in {"neg", "count", "lit", "attr"} THEN 1 ELSE IF op \in {"ite", "mkmap"} THEN 3 ELSE 2
+Arity(op) == IF op \in {"neg", "count", "lit", "attr", "rodd", "rsum", "rall", "rlist"} THEN 1 ELSE IF op \in {"ite", "mkmap"} THEN 3 ELSE 2
 
 \* kind of a value incl. the element kind of collections (an empty collection counts as one of integers)
 EK(v) == LET ks == ElemKinds(v) IN IF ks = {} THEN "int" ELSE CHOOSE x \in ks : TRUE
@@ -31,7 +31,7 @@ Sigs(op) ==
     [] op \in {"eq", "ne"} -> {<<"int", "int">>, <<"str", "str">>, <<"bool", "bool">>}
     [] op = "cat" -> {<<"str", "str">>}
     [] op = "and" -> {<<"bool", "bool">>}
-    [] op = "neg" -> {<<"int">>}
+    [] op \in {"neg", "rodd", "rsum", "rall", "rlist"} -> {<<"int">>}
     [] op = "ite" -> {<<"bool", "int", "int">>, <<"bool", "str", "str">>}
     [] op = "lcat" -> {<<"list:int", "list:int">>, <<"list:str", "list:str">>}
     [] op = "union" -> {<<"set:int", "set:int">>, <<"set:str", "set:str">>}
